@@ -8,6 +8,9 @@ def run(ctx):
     fw.l1(ctx)
     fw.graph(ctx, q)
     fw.traces(ctx, "c03", 3000 if q else 120000)
+    # the stop condition must also hold for programs with every attribute and failing rules (the C02 generation mode)
+    fw.traces(ctx, "c02", 1000 if q else 20000)
+    c.order_leg(ctx, "Gen_FireOrder_fw.cfg", "one execute over rule bases of up to 130 rules (every rule fires, the call returns)")
     ctx.cov["rule"] = ("seeded random programs recorded from the real RustRuleEngine and interpreted by TLC: programs of 1-5 rules built to self-trigger and mutually trigger (counter moves guarded by bounds), max_cycles from {0,1,2,3,5,8,17,64}, timeout disabled; Ok/Err, cycle_count, rules_evaluated, rules_fired must equal the interpreter's, cycle_count <= max_cycles, rules_fired = |log|, and when the run stopped before the bound no still-eligible rule has a true condition on the final facts (evaluated by TLC); the recorder runs under a watchdog; "
                        "distinct_nontrivial = number of rule firings in the recorded runs")
     ctx.assumptions += fw.ASSUME
